@@ -3,6 +3,7 @@ package eng
 import (
 	"fmt"
 	"github.com/Oudwins/zog/conf"
+	"github.com/Oudwins/zog/i18n/en"
 	"reflect"
 	"sort"
 	"strings"
@@ -86,7 +87,7 @@ func hasIssuePath(n *Node) bool {
 		}
 	}
 	for _, p := range n.PTs {
-		if p.Op == "issue" {
+		if p.Op == "issue" || p.Op == "bare_issue" {
 			return true
 		}
 	}
@@ -269,6 +270,14 @@ func NewCase(g *Gen, id int, forceValidate *bool) *Case {
 		defer g.installGlobal(n)()
 		c.Shape += ":global"
 	}
+	if g.P.PCustomTpl > 0 && g.R.P(g.P.PCustomTpl) {
+		// a user-edited language map whose templates name two parameters, on tests that carry both: the message
+		// is a function of the issue, not of the order in which its parameters are met (judged by the repeat oracle)
+		defer installTwoParamTemplates()()
+		twoParams(n, g.R)
+		c.SkipModel = true
+		c.Shape += ":twoparams"
+	}
 	schema := Build(rec, n, validate)
 	t := TypeOf(n)
 
@@ -286,11 +295,11 @@ func NewCase(g *Gen, id int, forceValidate *bool) *Case {
 		if fork.P(25) {
 			// a formatter option that a later one replaces
 			opts = append(opts, z.WithIssueFormatter(func(i *z.ZogIssue, _ z.Ctx) { i.SetMessage("replaced:" + i.Code) }))
-			c.Opts = append(c.Opts, `OFmt "replaced:"`)
+			c.Opts = append(c.Opts, `OFmt "replaced:" None`)
 		}
 		c.ExecFmt = &tag
 		opts = append(opts, z.WithIssueFormatter(func(i *z.ZogIssue, _ z.Ctx) { i.SetMessage(tag + i.Code) }))
-		c.Opts = append(c.Opts, "OFmt "+CoqStr(tag))
+		c.Opts = append(c.Opts, "OFmt "+CoqStr(tag)+" None")
 	}
 	if fork.P(20) {
 		// the same key again, and other keys, after the formatter: the last value of a key is the one read
@@ -561,7 +570,7 @@ func (c *Case) Coq() string {
 	}
 	optTerms := c.Opts
 	if optTerms == nil && c.ExecFmt != nil {
-		optTerms = []string{"OFmt " + CoqStr(*c.ExecFmt)}
+		optTerms = []string{"OFmt " + CoqStr(*c.ExecFmt) + " None"}
 	}
 	views := c.CtxViews
 	if views == "" {
@@ -674,4 +683,48 @@ func shuffled(r *Rng, n *Node) *Node {
 		}
 	}
 	return &c
+}
+
+// installTwoParamTemplates appends a second placeholder to every template of the default language map.
+func installTwoParamTemplates() func() {
+	saved := map[string]map[string]string{}
+	for typ, codes := range en.Map {
+		saved[typ] = map[string]string{}
+		for code, tpl := range codes {
+			saved[typ][code] = tpl
+			if code != "fallback" {
+				codes[code] = tpl + " [{{hint}}] [{{limit}}]"
+			}
+		}
+	}
+	return func() {
+		for typ, codes := range saved {
+			for code, tpl := range codes {
+				en.Map[typ][code] = tpl
+			}
+		}
+	}
+}
+
+// twoParams gives the length and comparison tests of a schema (those whose parameter is named after
+// their code) a Params option holding that parameter and two more.
+func twoParams(n *Node, r *Rng) {
+	for i := range n.Tests {
+		t := &n.Tests[i]
+		if t.OptMsg != nil || t.OptCode != nil || t.Not {
+			continue
+		}
+		switch {
+		case n.Kind == KString && (t.Builtin == "min" || t.Builtin == "max" || t.Builtin == "len"),
+			(n.Kind == KInt || n.Kind == KInt64 || n.Kind == KInt32) && (t.Builtin == "gt" || t.Builtin == "gte" || t.Builtin == "lt" || t.Builtin == "lte"):
+			t.OptParams = [][2]string{{"hint", fmt.Sprintf("h%d", r.Intn(100))}, {"limit", fmt.Sprint(r.Intn(50))}, {t.Builtin, fmt.Sprint(t.N)}}
+			sort.Slice(t.OptParams, func(a, b int) bool { return t.OptParams[a][0] < t.OptParams[b][0] })
+		}
+	}
+	for _, f := range n.Fields {
+		twoParams(f.Node, r)
+	}
+	if n.Elem != nil {
+		twoParams(n.Elem, r)
+	}
 }
